@@ -334,7 +334,7 @@ def run(F, R, tier):
     E = Evaluator(F, inline=lambda n, g: False)
     v, fr = E.function_value(f)
     sv = show(v)
-    ok = re.match(r"^\(is_zero\(scale, epsilon\(\)\) \? 1 : is_equal\(scale, read_scale\(block\), eps\)\)$", sv) is not None
+    ok = re.match(r"^\(is_zero\(scale, epsilon\(\)\) \? 1 : is_equal\((scale, read_scale\(block\)|read_scale\(block\), scale), eps\)\)$", sv) is not None
     R.check("K4", ok, "is_at_scale = " + sv[:120], F.loc(f),
             "block scale is not compared with the absolute-tolerance is_equal(scale, block_scale, eps)", key="K4|is_at_scale")
     eps_vals = set()
